@@ -125,6 +125,9 @@ def bank_chains(seed, count, prefix="c03"):
         s.entry(h, us[1], [{"t": "PEG", "amt": peg, "conv": "pUSD"}])
         # each PEG draw affordable alone, together not, the last one relying on the deferred credit of the middle one
         s.entry(h + 1, us[2], [{"t": "PEG", "amt": peg, "conv": "pUSD"}, {"t": "pUSD", "amt": 50 * 10**8, "conv": "PEG"}, {"t": "PEG", "amt": peg, "conv": "pUSD"}])
+        # a huge request and a tiny one in the same block: the tiny one's share of the bank rounds to 0 (it keeps its whole input)
+        s.convert(h + 2, us[3], "pFCT", 250 * 10**8, "PEG", track=False)
+        s.convert(h + 2, us[1], "pUSD", 2, "PEG", track=False)
         s.tip(21)
         docs.append((s.s["name"], s.doc()))
     return docs
